@@ -224,6 +224,30 @@ func runC15(ctx *core.Ctx) {
 			cp := append([]byte{}, buf...)
 			gotB := env.Pol.SanitizeBytes(buf)
 			cs.Eval()
+			{
+				// the caller's slice may have spare capacity (a sub-slice of a larger buffer): what lies behind
+				// len(b) belongs to the caller too, and the result must not live there
+				big := make([]byte, len(in)+96)
+				for k := range big {
+					big[k] = 0xA5
+				}
+				copy(big, in)
+				sub := big[:len(in)]
+				res := env.Pol.SanitizeBytes(sub)
+				res2 := env.Pol.SanitizeBytes([]byte("<b>other</b> input &amp; more text to overwrite a shared backing array"))
+				_ = res2
+				cs.Eval()
+				lc["spare_capacity_checks"]++
+				for k := len(in); k < len(big); k++ {
+					if big[k] != 0xA5 {
+						cs.Violate("C15:input-buffer-modified:spare-capacity", fmt.Sprintf("SanitizeBytes wrote into the caller's array behind len(b) (offset %d of a slice with len %d cap %d); input=%q", k, len(in), len(big), core.Clip(in, 200)), witness(nil))
+						break
+					}
+				}
+				if string(res) != string(gotB) {
+					cs.Violate("C15:earlier-result-changed", fmt.Sprintf("the result of SanitizeBytes on a slice with spare capacity reads %q after a later call, %q was returned for the same input; input=%q", core.Clip(string(res), 200), core.Clip(string(gotB), 200), core.Clip(in, 200)), witness(nil))
+				}
+			}
 			if !bytes.Equal(buf, cp) {
 				cs.Violate("C15:input-buffer-modified", fmt.Sprintf("SanitizeBytes modified the caller's buffer; input=%q", core.Clip(in, 200)), witness(nil))
 			}
